@@ -25,7 +25,7 @@ if metas:
         d = json.load(open(m))
         sid = os.path.basename(os.path.dirname(m))
         r = res.get(sid, ["(not run yet)", ""])
-        seeded.append(f"| {sid} | {d.get('property','')} | {d.get('summary','').replace('|','/')} — needs: {d.get('needs','').replace('|','/')} | {r[0]} {r[1] if len(r)>1 else ''} |")
+        seeded.append(f"| {sid} | {d.get('property','')} | {d.get('summary','')[:300].replace('|','/').replace('\n',' ')} — needs: {d.get('needs','')[:220].replace('|','/').replace('\n',' ')} | {r[0]} {r[1] if len(r)>1 else ''} |")
 else:
     seeded.append("(being collected)")
 t = t.replace("@SEEDED@", "\n".join(seeded))
